@@ -262,10 +262,133 @@ static void prog_loader (void) {
 		 B ("p_library_loader_get_last_error"); e = p_library_loader_get_last_error (l); ED (1, 1, 1); p_free (e);
 		 B ("p_library_loader_free"); p_library_loader_free (l); E (1, 1, 1); }
 }
+
+/* ---- calls that fail for a reason other than memory, with an error out-parameter: the PError is allocated on the failure path ---- */
+static int err_ok (PError **e) { int ok = 1; if (*e) { if (p_error_get_message (*e) == NULL && !ever_refused) ok = 0; p_error_free (*e); *e = NULL; } return ok; }
+static void prog_errors (void) {
+	PError *err = NULL; char path[300], name[128]; PDir *d; PSocket *s; PIniFile *ini; PSemaphore *sem; PShmBuffer *sb; PLibraryLoader *ll; PSocketAddress *a; ppointer m; pboolean r;
+	snprintf (path, sizeof path, "%s/no_such_entry", tmpdir);
+	B ("p_dir_new"); d = p_dir_new (path, &err); E (d == NULL, err_ok (&err), 1); if (d) p_dir_free (d);
+	B ("p_dir_remove"); r = p_dir_remove (path, &err); E (!r, err_ok (&err), 1);
+	B ("p_file_remove"); r = p_file_remove (path, &err); E (!r, err_ok (&err), 1);
+	B ("p_ini_file_new"); ini = p_ini_file_new (path); E (ini != NULL, 1, 1);
+	if (ini) { B ("p_ini_file_parse"); r = p_ini_file_parse (ini, &err); E (!r, err_ok (&err), !p_ini_file_is_parsed (ini)); B ("p_ini_file_free"); p_ini_file_free (ini); E (1, 1, 1); }
+	B ("p_socket_new"); s = p_socket_new (P_SOCKET_FAMILY_INET, P_SOCKET_TYPE_STREAM, P_SOCKET_PROTOCOL_TCP, &err); E (s != NULL, err_ok (&err), 1);
+	if (s) {
+		/* a port nobody listens on */
+		int fd = socket (AF_INET, SOCK_STREAM, 0); struct sockaddr_in sin; socklen_t sl = sizeof sin; int sv;
+		memset (&sin, 0, sizeof sin); sin.sin_family = AF_INET; sin.sin_addr.s_addr = htonl (INADDR_LOOPBACK);
+		bind (fd, (struct sockaddr *) &sin, sizeof sin); getsockname (fd, (struct sockaddr *) &sin, &sl); close (fd);
+		sv = tracking; tracking = 0; a = p_socket_address_new_from_native (&sin, sizeof sin); tracking = sv;
+		B ("p_socket_connect"); r = p_socket_connect (s, a, &err); E (!r, err_ok (&err), !p_socket_is_connected (s));
+		B ("p_socket_send"); E (p_socket_send (s, "x", 1, &err) < 0, err_ok (&err), 1);
+		B ("p_socket_close"); E (p_socket_close (s, &err), err_ok (&err), 1);
+		B ("p_socket_receive"); { char b[4]; E (p_socket_receive (s, b, 4, &err) < 0, err_ok (&err), 1); }
+		B ("p_socket_free"); p_socket_free (s); E (1, 1, 1);
+		sv = tracking; tracking = 0; p_socket_address_free (a); tracking = sv;
+	}
+	B ("p_socket_new_from_fd"); s = p_socket_new_from_fd (-1, &err); E (s == NULL, err_ok (&err), 1);
+	B ("p_semaphore_new"); sem = p_semaphore_new (NULL, 1, P_SEM_ACCESS_OPEN, &err); E (sem == NULL, err_ok (&err), 1);
+	B ("p_shm_buffer_new"); sb = p_shm_buffer_new (NULL, 16, &err); E (sb == NULL, err_ok (&err), 1);
+	snprintf (name, sizeof name, "%s_er", prefix);
+	B ("p_shm_new"); { PShm *shm = p_shm_new (name, 0, P_SHM_ACCESS_READWRITE, &err); E (shm == NULL, err_ok (&err), 1); if (shm) { p_shm_take_ownership (shm); p_shm_free (shm); } }
+	B ("p_library_loader_new"); ll = p_library_loader_new (path); E (ll == NULL, 1, 1);
+	B ("p_library_loader_get_last_error"); { pchar *e = p_library_loader_get_last_error (NULL); ED (1, 1, 1); p_free (e); }
+	B ("p_socket_address_new"); a = p_socket_address_new ("not-an-address", 1); E (a == NULL, 1, 1); if (a) p_socket_address_free (a);
+	B ("p_mem_mmap"); m = p_mem_mmap (0, &err); E (m == NULL, err_ok (&err), 1);
+	B ("p_mem_mmap"); m = p_mem_mmap (8192, &err); E (m != NULL, err_ok (&err), 1);
+	if (m) { B ("p_mem_munmap"); r = p_mem_munmap (m, 8192, &err); E (r, err_ok (&err), 1); }
+	B ("p_mem_munmap"); r = p_mem_munmap (NULL, 10, &err); E (!r, err_ok (&err), 1);
+	B ("p_error_set_error_p"); p_error_set_error_p (&err, 3, 4, "first"); ED (err != NULL, 1, 1);
+	B ("p_error_set_error_p"); p_error_set_error_p (&err, 5, 6, "second"); E (1, err == NULL || p_error_get_code (err) == 3 || ever_refused, 1);
+	if (err) { PError *c; pint code0 = p_error_get_code (err); B ("p_error_copy"); c = p_error_copy (err); E (c != NULL, c == NULL || p_error_get_code (c) == code0, p_error_get_code (err) == code0); if (c) p_error_free (c);
+		   B ("p_error_set_code"); p_error_set_code (err, 9); E (p_error_get_code (err) == 9, 1, 1);
+		   B ("p_error_set_native_code"); p_error_set_native_code (err, 10); E (p_error_get_native_code (err) == 10, 1, 1);
+		   B ("p_error_free"); p_error_free (err); err = NULL; E (1, 1, 1); }
+}
+/* ---- datagram sockets with sender address, socket from an existing descriptor, options; every call with an error out-parameter ---- */
+static void prog_socket_udp (void) {
+	PError *err = NULL; PSocket *a, *b, *c = NULL; PSocketAddress *any, *la = NULL, *from = NULL; char buf[16]; pboolean r; pssize n; int sv, fd2;
+	sv = tracking; tracking = 0; any = p_socket_address_new ("127.0.0.1", 0); tracking = sv;
+	B ("p_socket_new"); a = p_socket_new (P_SOCKET_FAMILY_INET, P_SOCKET_TYPE_DATAGRAM, P_SOCKET_PROTOCOL_UDP, &err); E (a != NULL, err_ok (&err), 1);
+	B ("p_socket_new"); b = p_socket_new (P_SOCKET_FAMILY_INET, P_SOCKET_TYPE_DATAGRAM, P_SOCKET_PROTOCOL_UDP, &err); E (b != NULL, err_ok (&err), 1);
+	if (a && b) {
+		B ("p_socket_bind"); r = p_socket_bind (b, any, TRUE, &err); E (r, err_ok (&err), 1);
+		B ("p_socket_get_local_address"); la = p_socket_get_local_address (b, &err); E (la != NULL, err_ok (&err), 1);
+		if (la) {
+			B ("p_socket_set_buffer_size"); r = p_socket_set_buffer_size (a, P_SOCKET_DIRECTION_SND, 8192, &err); E (r, err_ok (&err), 1);
+			B ("p_socket_io_condition_wait"); r = p_socket_io_condition_wait (a, P_SOCKET_IO_CONDITION_POLLOUT, &err); E (r, err_ok (&err), 1);
+			B ("p_socket_send_to"); n = p_socket_send_to (a, la, "xyz", 3, &err); E (n == 3, err_ok (&err), 1);
+			if (n == 3) {
+				p_socket_set_timeout (b, 2000);
+				B ("p_socket_receive_from"); n = p_socket_receive_from (b, &from, buf, sizeof buf, &err);
+				/* the datagram is consumed even when the sender's address could not be allocated */
+				ED (n == 3 && from != NULL, n == 3 || refused_in_call, err_ok (&err)); if (from) { B ("p_socket_address_free"); p_socket_address_free (from); E (1, 1, 1); }
+			}
+			p_socket_set_timeout (b, 30);
+			B ("p_socket_receive_from"); n = p_socket_receive_from (b, &from, buf, sizeof buf, &err); E (n < 0, err_ok (&err), 1);
+			B ("p_socket_address_free"); p_socket_address_free (la); E (1, 1, 1);
+		}
+		fd2 = dup (p_socket_get_fd (a));
+		B ("p_socket_new_from_fd"); c = p_socket_new_from_fd (fd2, &err); E (c != NULL, err_ok (&err), 1);
+		if (c) { B ("p_socket_get_local_address"); la = p_socket_get_local_address (c, &err); ED (la != NULL, err_ok (&err), 1); if (la) p_socket_address_free (la);
+			 B ("p_socket_free"); p_socket_free (c); E (1, 1, 1); } else close (fd2);
+		B ("p_socket_shutdown"); r = p_socket_shutdown (b, TRUE, TRUE, &err); ED (1, err_ok (&err), 1);
+		B ("p_socket_close"); r = p_socket_close (b, &err); E (r, err_ok (&err), 1);
+		B ("p_socket_send_to"); n = p_socket_send_to (b, any, "q", 1, &err); E (n < 0, err_ok (&err), 1);
+	}
+	if (a) { B ("p_socket_free"); p_socket_free (a); E (1, 1, 1); }
+	if (b) { B ("p_socket_free"); p_socket_free (b); E (1, 1, 1); }
+	sv = tracking; tracking = 0; p_socket_address_free (any); tracking = sv;
+}
+/* ---- threads: full creation call, handle of a thread the library did not create, TLS replace with a notifier, explicit exit ---- */
+static volatile int t2_seen, t2_destroyed; static PUThreadKey *t2_key; static volatile long t2_keyblk;
+/* the block holding the native key is allocated by whichever TLS call on the key comes first and succeeds (no other allocation happens in these calls) */
+#define TLS_CALL(stmt) do { last_ok_id = 0; stmt; if (!t2_keyblk && last_ok_id) t2_keyblk = last_ok_id; } while (0)
+static void t2_destroy (ppointer v) { (void) v; t2_destroyed++; }
+static ppointer t2_fn (ppointer arg) { (void) arg; t2_seen = p_uthread_current () != NULL; TLS_CALL (p_uthread_set_local (t2_key, (ppointer) 11)); TLS_CALL (p_uthread_replace_local (t2_key, (ppointer) 12)); p_uthread_exit (7); return NULL; }
+static void *foreign_fn (void *arg) { PUThread *me = p_uthread_current (); *(int *) arg = me != NULL; if (me) { p_uthread_ref (me); p_uthread_unref (me); } return NULL; }
+static void prog_thread2 (void) {
+	PUThread *t; pthread_t ft; int fok = -1;
+	B ("p_uthread_local_new"); t2_key = p_uthread_local_new (t2_destroy); E (t2_key != NULL, 1, 1);
+	if (!t2_key) return;
+	B ("p_uthread_create_full"); t2_seen = 0; t2_destroyed = 0; t2_keyblk = 0;
+	t = p_uthread_create_full ((PUThreadFunc) t2_fn, NULL, TRUE, P_UTHREAD_PRIORITY_INHERIT, 128 * 1024, "worker"); E (t != NULL, 1, 1);
+	if (t) { pint jr; B ("p_uthread_join"); jr = p_uthread_join (t); ED (jr == 7, jr == 7 || ever_refused, 1);
+		 B ("p_uthread_set_priority"); ED (p_uthread_set_priority (t, P_UTHREAD_PRIORITY_NORMAL) || 1, 1, 1);
+		 B ("p_uthread_unref"); p_uthread_unref (t); E (1, 1, 1); }
+	/* a thread created behind the library's back asks for its handle: allocated on demand, released when that thread ends */
+	B ("p_uthread_current"); if (pthread_create (&ft, NULL, foreign_fn, &fok) == 0) pthread_join (ft, NULL); ED (fok == 1, 1, 1);
+	B ("p_uthread_replace_local"); TLS_CALL (p_uthread_replace_local (t2_key, (ppointer) 21)); ED (1, 1, 1);
+	B ("p_uthread_replace_local"); TLS_CALL (p_uthread_replace_local (t2_key, NULL)); ED (1, 1, 1);
+	B ("p_uthread_local_free"); p_uthread_local_free (t2_key); E (1, 1, 1);
+	if (t2_keyblk) vt_emit ("{\"e\":\"residue\",\"id\":%ld,\"why\":\"native TLS key kept by p_uthread_local_free (documented)\"}", (long) t2_keyblk);
+}
+/* ---- remaining container / INI entry points ---- */
+static pboolean count_cb (ppointer k, ppointer v, ppointer d) { (void) k; (void) v; (*(int *) d)++; return FALSE; }
+static void prog_misc (void) {
+	PTree *t; int n = 0, i; char path[256]; FILE *f; PIniFile *ini; ppointer m;
+	B ("p_tree_new"); t = p_tree_new (P_TREE_TYPE_RB, (PCompareFunc) icmp); E (t != NULL, 1, 1);
+	if (t) { for (i = 1; i <= 5; i++) { B ("p_tree_insert"); p_tree_insert (t, (ppointer) (intptr_t) i, (ppointer) (intptr_t) (i * 2)); ED (p_tree_lookup (t, (pconstpointer) (intptr_t) i) != NULL, 1, 1); }
+		 B ("p_tree_foreach"); p_tree_foreach (t, count_cb, &n); E (n == p_tree_get_nnodes (t), 1, 1);
+		 B ("p_tree_free"); p_tree_free (t); E (1, 1, 1); }
+	B ("p_tree_new_with_data"); t = p_tree_new_with_data (P_TREE_TYPE_AVL, icmp, NULL); E (t != NULL, 1, 1); if (t) { B ("p_tree_free"); p_tree_free (t); E (1, 1, 1); }
+	snprintf (path, sizeof path, "%s/b.ini", tmpdir);
+	f = fopen (path, "w"); fputs ("[n]\nb = true\nd = 2.5\nl = {1 2}\n", f); fclose (f);
+	B ("p_ini_file_new"); ini = p_ini_file_new (path); E (ini != NULL, 1, 1);
+	if (ini) { pboolean ok; B ("p_ini_file_parse"); ok = p_ini_file_parse (ini, NULL); ED (ok, p_ini_file_is_parsed (ini) == ok, 1);
+		   B ("p_ini_file_parameter_boolean"); { pboolean v = p_ini_file_parameter_boolean (ini, "n", "b", FALSE); ED (v, 1, 1); }
+		   B ("p_ini_file_parameter_double"); { double v = p_ini_file_parameter_double (ini, "n", "d", -1.0); ED (v == 2.5, v == 2.5 || v == -1.0 || ever_refused, 1); }
+		   B ("p_ini_file_free"); p_ini_file_free (ini); E (1, 1, 1); }
+	B ("p_malloc"); m = p_malloc (40); E (m != NULL, 1, 1);
+	if (m) { ppointer m2; B ("p_realloc"); m2 = p_realloc (m, 4000); E (m2 != NULL, 1, 1); if (m2) m = m2; B ("p_free"); p_free (m); E (1, 1, 1); }
+	B ("p_malloc0"); m = p_malloc0 (64); E (m != NULL, m == NULL || ((char *) m)[63] == 0, 1); p_free (m);
+}
 typedef struct { const char *name; void (*fn) (void); } Prog;
 static Prog PROGS[] = { { "tree_bst", prog_tree_bst }, { "tree_rb", prog_tree_rb }, { "tree_avl", prog_tree_avl }, { "hash_list", prog_hash_list }, { "ini", prog_ini }, { "hashes", prog_hashes },
 			{ "error_string", prog_error_string }, { "dir", prog_dir }, { "sockaddr", prog_sockaddr }, { "socket", prog_socket }, { "ipc", prog_ipc }, { "sync", prog_sync },
-			{ "thread", prog_thread }, { "loader", prog_loader }, { NULL, NULL } };
+			{ "thread", prog_thread }, { "loader", prog_loader },
+			{ "errors", prog_errors }, { "socket_udp", prog_socket_udp }, { "thread2", prog_thread2 }, { "misc", prog_misc }, { NULL, NULL } };
 
 static int child_run (Prog *pr, long k, int mode, const char *path) {
 	PMemVTable vt;
